@@ -263,6 +263,14 @@ class C11(Profile):
             if fired and any(f.startswith('ENOSPC') for f in fired) and len(items) > 1:
                 world.probe('enospc_mid_list')
             world.probe('add_resolved_by_observation')
+            from stix2.datastore import DataSourceError
+            ks = [k for k, _ in keys]
+            if (store == 'F' and not fired and not sw.torn and isinstance(out.exc, DataSourceError) and len(set(ks)) == len(ks)
+                    and not any(k in model for k in ks)):
+                # the refusal to overwrite is documented for a version that is already stored - not for a new, distinct one
+                raise Violation('new-version-accepted', 'C11.add-refused-new-version/F',
+                                dict(keys=[SW.kstr(k) for k in ks], form=op['form'], exc=repr(out.exc)[:300],
+                                     stored=sorted(SW.kstr(k) for k in model if k[0] in {x[0] for x in ks})[:6]))
             if store == 'F':
                 self.resolve_fs(sw, world, before_disk)
             else:
